@@ -11,6 +11,20 @@ CHECKS = {
         "level_note": "the bounded space contains every overlap/shadowing pattern between one client entry and one '*' entry; larger maps are sampled only",
         "design_ref": "3/C05",
     },
+    "C29": {
+        "level": "exploration",
+        "crash_is_violation": True,
+        "phases": [
+            {"name": "lin", "race": False, "test": "TestC29"},
+            {"name": "race", "race": True, "test": "TestC29"},
+        ],
+        "race_deciding_files": True,
+        "race_func_prefixes": ["util.(*IDSequence)", "transactions.(*TransactionStore)", "util.(*ClientState)", "util.NewIDSequence", "transactions.NewTransactionStore"],
+        "technique": "runtime monitoring: porcupine linearizability checking of recorded concurrent histories + Go race detector on the same stress; sequential model conformance for small ranges",
+        "level_text": "Thousands of short concurrent histories per run (few keys, 2-8 goroutines) recorded at the call boundary and checked for linearizability against a sequential counter/map/register model; the same stress is repeated unrecorded under -race, where any report (or 'concurrent map' fatal error) located in the three anchored types decides. Small (min,max) ranges are checked sequentially for 3 full cycles (exhaustive for 0<=min<=max<=6).",
+        "level_note": "interleavings are those the Go scheduler produced on 16 cores in this run (counter histories_with_overlap), not all; porcupine timeouts are inconclusive",
+        "design_ref": "3/C29",
+    },
     "C20": {
         "level": "exploration",
         "crash_is_violation": True,
